@@ -370,6 +370,12 @@ func modClasses(ms *gen.ModuleSet) (cls []string, nExtFiles int, nontrivial bool
 			extFiles++
 		}
 	}
+	if ms.Scale != "" {
+		cls = append(cls, "set:scaled", "set:scaled:"+ms.Scale)
+	}
+	if len(ms.Files) >= 8 {
+		cls = append(cls, "set:eight-or-more-files")
+	}
 	if ext {
 		cls = append(cls, "set:has-extension")
 	}
